@@ -23,6 +23,8 @@ func init() {
 			{ID: "C15.5", Desc: "Get reads the whole file", Run: func(c *Ctx) { ruleGetReadsWholeFile(c, "C15.5") }, MinSites: 1},
 			{ID: "C15.6", Desc: "temporary names are unique across the connections of a process", Run: func(c *Ctx) { ruleTempNameProcessWide(c, "C15.6") }, MinSites: 1},
 			{ID: "C15.7", Desc: "a stored entry whose body ends early is unreadable (no truncated response is served)", Run: func(c *Ctx) { ruleStoredBodyComplete(c, "C15.7") }, MinSites: 1},
+			{ID: "C15.8", Desc: "no key's file name can be a temporary file's name (Get never reads a file that is being written for another key)", Run: func(c *Ctx) { ruleTempPrefixOutsideAlphabet(c, "C15.8") }, MinSites: 1},
+			{ID: "C15.9", Desc: "temporary names are not shared between processes on one directory", Run: func(c *Ctx) { ruleTempNameOwnProcess(c, "C15.9") }, MinSites: 1},
 		},
 	})
 }
